@@ -1,0 +1,16 @@
+//go:build verif
+
+// Verification hooks (build tag "verif") for the deterministic simulator under /verif.
+
+package mgmt
+
+import (
+	"github.com/named-data/ndnd/fw/table"
+	enc "github.com/named-data/ndnd/std/encoding"
+)
+
+// VerifRegisterRoute is the table part of rib/register (existence check of
+// the route's face, registration, re-check).
+func VerifRegisterRoute(name enc.Name, route *table.Route) bool {
+	return registerRoute(name, route)
+}
